@@ -100,6 +100,31 @@ def run(tier="quick", seed=0, arg=None):
                 if got != exp:
                     fails.append({"check": "C03.evaluate", "input": {"text": t, "env": {k: (sorted(v) if isinstance(v, set) else v) for k, v in e.items()}, "context": "lock_file"}, "observed": got, "expected": exp})
                     break
+    # name normalisation (PEP 685 / PEP 503): every spelling of the environment's extra / group names, incl. separator runs that mix - _ .
+    spellings = ["a-b", "A_b", "a.b", "a--b", "a-_b", "A.-B", "a__b", "a..b", "a-.-b", "a_.-_b", "ab", "a", "a-b-c", "a--b__c"]
+    base = {k: v for k, v in envs[0].items() if k != "extra"}
+    for t in ['extra == "a-b"', 'extra != "A_b"', '"a.b" == extra', '"a-b" != extra', 'extra == "a-b-c"', 'extra == "a-b" or os_name == "zz"', 'extra != "a.b" and os_name != "zz"']:
+        m, ref = parse_marker(t), PkgMarker(t)
+        for sp in spellings:
+            e = dict(base, extra=sp)
+            evals += 1
+            exp, got = ref.evaluate(e), m.evaluate(e)
+            if got != exp:
+                fails.append({"check": "C03.evaluate", "input": {"text": t, "env": e}, "observed": got, "expected": exp})
+    for t in ['"a-b" in extras', '"a.b" not in extras', '"A_b" in dependency_groups', '"a-b-c" not in dependency_groups', '"a-b" in extras and "a-b-c" not in dependency_groups']:
+        m, ref = parse_marker(t), PkgMarker(t)
+        for sp in spellings:
+            for other in (set(), {"zz"}, {"a-b-c"}):
+                e = dict(base, extras={sp} | other, dependency_groups={sp} | other)
+                evals += 1
+                try:
+                    exp = ref.evaluate(e, context="lock_file")
+                except Exception:  # noqa: BLE001
+                    continue
+                got = m.evaluate(e, context="lock_file")
+                if got != exp:
+                    fails.append({"check": "C03.evaluate", "input": {"text": t, "env": {k: (sorted(v) if isinstance(v, set) else v) for k, v in e.items()}, "context": "lock_file"},
+                                  "observed": got, "expected": exp})
     return {"suite": "marker_vs_packaging", "evaluations": evals, "distinct_nontrivial": len(distinct), "not_evaluated": timeouts,
             "rule": "marker texts over the well-defined atom pool (both operand orders, nested and/or with parentheses), each evaluated on %d environments "
                     "by dep-logic and by the installed packaging; non-trivial = reference truth value varies over the grid; environments on which packaging itself "
